@@ -187,4 +187,28 @@ prop("C08",
      runs=[dict(name="h_opt", sources=["harness/h_opt.c"], profile="asan", wraps=["libast_print_error", "libast_print_warning"],
                 args={"quick": ["--K=2", "--N=3"], "thorough": ["--K=3", "--N=4"]})],
      deadline={"quick": 240, "thorough": 3000})
+
+
+_CONFWRAPS = ["getenv", "system", "fork", "vfork", "execve", "execv", "execvp", "popen", "posix_spawn", "fopen", "fdopen", "fclose", "libast_print_error", "libast_print_warning"]
+prop("C09",
+     level="exploration",
+     technique="bounded exhaustive enumeration (E2) of config files over a line alphabet (incl. %include trees) against a reference reading that emits the expected handler-call trace with state threading; full depth sweep 1..255; private stacks read through TU inclusion of conf.c",
+     rule="every file of <= N lines over 16 line kinds is written to disk and parsed by the real spifconf_parse; the recorded handler calls (context, begin/end/text, text, state received) must equal the trace of the reference reading, "
+          "diagnostics must match, files opened == files closed, file stack back at 0, context stack at the number of unclosed blocks, index < capacity at every handler call; "
+          "depth sweep: every d in 1..255 balanced and unbalanced; include chains 1..30; non-trivial = files with a block or an include, all sweep cases",
+     bounds={"quick": "N=3 (4369 files) + 510 depth cases + 30 include chains", "thorough": "N=5 (1.1 M files) + sweeps"},
+     runs=[dict(name="h_conf", sources=["harness/h_conf.c"], profile="asan", exclude=["conf.c"], wraps=_CONFWRAPS, args={"quick": ["--N=3"], "thorough": ["--N=5"]})],
+     deadline={"quick": 240, "thorough": 3000})
+
+
+prop("C10",
+     level="exploration",
+     technique="bounded exhaustive enumeration (E2) of value strings built from expansion fragments x environments against a reference expander, each call repeated under two stack/heap fill patterns (purity) and on exact-size heap inputs (over-read); explicit-state BFS over %put/%get histories; length-limit sweep",
+     rule="every concatenation of <= N fragments x HOME in {/h, empty, unset} is expanded by the real spifconf_shell_expand twice (memory pre-filled with 0xA5, then 0x5A); both results must agree with each other and with the reference expander "
+          "(inputs with a '%' that starts no built-in get the safety/purity oracle only); the input sits in an exact-size heap block whenever the expected result fits; "
+          "%put/%get: BFS over 9 operations to a fixpoint with the store's order/uniqueness invariant; limit: 10 fragments x 14 distances from 20479 x 2; non-trivial = inputs containing a special character",
+     bounds={"quick": "N=3 (22765 strings x 3 HOME)", "thorough": "N=4 (637 k strings x 3 HOME)"},
+     runs=[dict(name="h_expand", sources=["harness/h_expand.c"], profile="asan", exclude=["conf.c"], wraps=_CONFWRAPS, args={"quick": ["--N=3"], "thorough": ["--N=4"]}),
+           dict(name="h_expand_O2", sources=["harness/h_expand.c"], profile="plain2", exclude=["conf.c"], wraps=_CONFWRAPS, args={"quick": ["--N=2", "--only=a"], "thorough": ["--N=3", "--only=a"]})],
+     deadline={"quick": 240, "thorough": 3000})
 NOT_CLAIMED = {}
